@@ -1,13 +1,14 @@
 #!/bin/bash
-# Polls /tmp/mq.txt for lines "name|props|PATCH|diff" and runs each once, sequentially. Log: /tmp/mq.log
-touch /tmp/mq.txt
+# selftest/mutant_queue.sh [queue-file [log-file]]: polls the queue file (default /tmp/mq.txt) for lines "name|props|PATCH|diff" and runs each once, sequentially. Log: /tmp/mq.log
+Q=${1:-/tmp/mq.txt}; L=${2:-/tmp/mq.log}
+touch $Q
 n=0
 while true; do
-  total=$(wc -l < /tmp/mq.txt)
+  total=$(wc -l < $Q)
   if [ "$n" -lt "$total" ]; then
-    n=$((n+1)); sed -n "${n}p" /tmp/mq.txt > /tmp/mq.one
-    grep -q "^STOP" /tmp/mq.one && exit 0
-    /verif/selftest/run_mutants.sh /tmp/mq.one >> /tmp/mq.log 2>&1
+    n=$((n+1)); sed -n "${n}p" $Q > $Q.one
+    grep -q "^STOP" $Q.one && exit 0
+    /verif/selftest/run_mutants.sh $Q.one >> $L 2>&1
   else
     sleep 15
   fi
